@@ -3,6 +3,7 @@ import GinjaxVerif.Lemmas.C05LC
 import GinjaxVerif.Lemmas.C05Sym
 import GinjaxVerif.Lemmas.C05Conv
 import GinjaxVerif.Lemmas.SignedPerm
+import GinjaxVerif.Lemmas.C05ConvBridge
 
 /-!
 # C05 — the image algebra is type-sound: the declared `(k, parity)` is how results transform
@@ -93,6 +94,20 @@ theorem eval_equivariant (hd : d = 2 ∨ d = 3) (M : Mat d) (hM : isSignedPerm M
     (eval tab sqrtF convF (actEnv M env) e).p = t.p ∧
     (eval tab sqrtF convF (actEnv M env) e).torus = transport M t.torus :=
   eval_equivariant_of M hM tab htab sqrtF convF env e t (fun _ => LCSign_23 hd) (fun _ => hConv) ht
+
+/-- **Unconditional form**, `d ∈ {2, 3}`: with the direct-sum convolution `convI` (default options of
+`convolve_with`, the model the driver evaluates) every well-typed tree — convolution nodes
+included — is equivariant with its declared type.  The convolution case is discharged by C01's
+index-level theorem `convSpec_push` through `convI_eq_convSpec` (`Lemmas/C05ConvBridge.lean`). -/
+theorem eval_equivariant_convI (hd : d = 2 ∨ d = 3) (M : Mat d) (hM : isSignedPerm M = true)
+    (tab : Img R d → Img R d) (htab : ∀ A, (tab A).SEq A) (sqrtF : R → R)
+    (env : Nat → GImg R d) (e : Expr R) (t : Ty d)
+    (ht : tyOf (fun i => (env i).ty) e = some t) :
+    (eval tab sqrtF convI env e).ty = t ∧
+    (eval tab sqrtF convI (actEnv M env) e).img.SEq (tge M t.p (eval tab sqrtF convI env e).img) ∧
+    (eval tab sqrtF convI (actEnv M env) e).p = t.p ∧
+    (eval tab sqrtF convI (actEnv M env) e).torus = transport M t.torus :=
+  eval_equivariant hd M hM tab htab sqrtF convI convI_convHyp env e t ht
 
 /-- convolution-free trees, `d ∈ {2, 3}`: no hypothesis left (whatever `convF` is) -/
 theorem eval_equivariant_noConv (hd : d = 2 ∨ d = 3) (M : Mat d) (hM : isSignedPerm M = true)
